@@ -8,6 +8,7 @@ import (
 	"bytes"
 	"encoding/xml"
 	"io"
+	"regexp"
 )
 
 type vXMLAttr struct{ Name, Value string }
@@ -94,6 +95,8 @@ func (t *vTokReader) Read(p []byte) (int, error) {
 	return n, nil
 }
 
+var vXMLOuter = regexp.MustCompile(`^<([A-Za-z_][A-Za-z0-9_.-]*)`)
+
 // vXMLStream turns the token list into a reader (natively: real XML text).
 func vXMLStream(toks []vXMLTok) io.Reader {
 	var buf bytes.Buffer
@@ -108,9 +111,24 @@ func vXMLStream(toks []vXMLTok) io.Reader {
 		switch t.Kind {
 		case 0:
 			if t.Model != nil {
-				if err := enc.EncodeElement(t.Model, start); err != nil {
+				// the element is written on its own; a marshaller that forces its own element
+				// name (OSM writes <osm>) is renamed to the name the token stream asks for
+				var mb bytes.Buffer
+				me := xml.NewEncoder(&mb)
+				if err := me.EncodeElement(t.Model, start); err != nil {
 					panic(err)
 				}
+				me.Flush()
+				b := mb.Bytes()
+				if m := vXMLOuter.FindSubmatch(b); m != nil && string(m[1]) != t.Name {
+					was := string(m[1])
+					b = append([]byte("<"+t.Name), b[1+len(was):]...)
+					if bytes.HasSuffix(b, []byte("</"+was+">")) {
+						b = append(b[:len(b)-len(was)-3], []byte("</"+t.Name+">")...)
+					}
+				}
+				enc.Flush()
+				buf.Write(b)
 			} else {
 				enc.EncodeToken(start)
 			}
@@ -124,6 +142,9 @@ func vXMLStream(toks []vXMLTok) io.Reader {
 			enc.Flush()
 			hooks[buf.Len()] = t.Hook
 		default:
+			// malformed rest: an end tag that closes nothing
+			enc.Flush()
+			buf.WriteString("</verif-malformed>")
 			stop = true
 		}
 		if stop {
